@@ -528,7 +528,7 @@ func c05Scenarios() []schedScenario {
 func (c05) Describe(tier string) fw.Description {
 	return fw.Description{
 		Level: "model_checking",
-		Rule: "(a) all SELECT lists of 1..2 (thorough 3) distinct items, order significant, from {*, a, a AS x, d.x, d.x AS y, 'lit' AS l, a + 1 AS e, upper(s) AS u, b} x 8 WHERE clauses (comparisons, AND, IS NULL, LIKE with inner wildcards), each on 160 rows (ints, floats, strings, bools, NULL, missing, nested maps) through EmitSync on one instance (history = all earlier rows), every 7th row also alone on a fresh instance, and through Emit with a sync sink and the result channel (eager deterministic schedule); oracle: produced iff WHERE true, exactly the selected columns with missing sources as NULL, EmitSync == sink == channel, emission order; (a2) nested access paths of docs/NESTED_FIELD_ACCESS.md (arr[0], arr[-1], out-of-range index, d['x'], ds[1].x, ds[0]['x'], m.n.o, mat[1][0]) as single items and ordered pairs x 5 WHERE clauses over such paths on 360 rows (arrays of length 0/1/3, missing keys, a number where an array is expected), missing sources are NULL; (b) schedules: 1 producer x 3 rows with a sync sink, an async sink and a channel reader explored with <= bound deviations: sync sink and channel in emission order, async sink as a multiset; three Emits into an input buffer of one row under drop / expand: no row twice, order kept; non-trivial = the row passes the WHERE",
+		Rule: "(a) all SELECT lists of 1..2 (thorough 3) distinct items, order significant, from {*, a, a AS x, d.x, d.x AS y, 'lit' AS l, a + 1 AS e, upper(s) AS u, b} x 8 WHERE clauses (comparisons, AND, IS NULL, LIKE with inner wildcards), each on 160 rows (ints, floats, strings, bools, NULL, missing, nested maps) through EmitSync on one instance (history = all earlier rows), every 7th row also alone on a fresh instance, and through Emit with a sync sink and the result channel (eager deterministic schedule); oracle: produced iff WHERE true, exactly the selected columns with missing sources as NULL, EmitSync == sink == channel, emission order; (a2) nested access paths of docs/NESTED_FIELD_ACCESS.md (arr[0], arr[-1], out-of-range index, d['x'], ds[1].x, ds[0]['x'], m.n.o, mat[1][0]) as single items and ordered pairs x 5 WHERE clauses over such paths on 360 rows (arrays of length 0/1/3, missing keys, a number where an array is expected), missing sources are NULL; (a3) FROM stream AS s / FROM stream s without a JOIN: qualified and unqualified references in SELECT and WHERE, SELECT *; (b) schedules: 1 producer x 3 rows with a sync sink, an async sink and a channel reader explored with <= bound deviations: sync sink and channel in emission order, async sink as a multiset; three Emits into an input buffer of one row under drop / expand: no row twice, order kept; non-trivial = the row passes the WHERE",
 		Bounds:      map[string]any{"items_per_select": map[string]int{"quick": 2, "thorough": 3}, "rows": 160, "where": 8, "sched_bound": map[string]int{"quick": 2, "thorough": 3}},
 		Assumptions: []string{"upper(NULL) may be NULL or ''", "block strategy with buffers of 4 in the schedule scenario so that nothing is dropped"},
 	}
